@@ -1,12 +1,11 @@
 //go:build verif
 
 //verif:dir p2p/net/swarm
-//verif:hook p2p/net/swarm dialLimiter.shouldConsumeFd
 //verif:shard VerifC05aLimiterHistory 12
 //verif:obligation C05.a dial limiter on every history of 3 (thorough 4) dial jobs for 2 peers (symbolic fd consumption, fd limit and per-peer limit in 1..2) that are finished or cancelled in every order, optionally after the worker of one peer has exited (clearAllPeerDials) with dials still in flight: at every quiescent point the fd counter equals the number of running fd-consuming dials and never exceeds the fd limit, a peer's counter equals its running dials plus its jobs queued for an fd token and its running dials never exceed the per-peer limit; every job that was not cancelled is dialed exactly once and answered exactly once; once every job has finished no token, counter or waiter remains
 //verif:obligation C05.b dial queue: Add keeps the queue sorted by delay and the multiset of entries, UpdateOrAdd leaves an address exactly once with its new delay, NextBatch returns exactly the entries of minimal delay and removes them (queues of <= 4 entries, symbolic delays)
 //verif:bound 3 (4) jobs, limits 1..2; <= 4 queue entries; 2 callers; cooperative schedule (goroutines switch at blocking points), timers fire only when idle
-//verif:stub dialFunc = harness stub blocking until released; shouldConsumeFd hooked to a per-job symbolic flag; addresses are atoms; the dial worker is a harness stub in C05.e
+//verif:stub dialFunc = harness stub blocking until released; addresses are real multiaddrs of a symbolic kind per job (TCP: takes an fd token; QUIC: none; the first job may also be a circuit through a TCP relay: none at this limiter) so the real shouldConsumeFd / isFdConsumingAddr decide on both the take and the release side; the dial worker is a harness stub in C05.e
 //verif:outside the worker loop's pacing and result dispatch (planned C05.f), completion orders under real preemption, back-off and black-hole filtering, ranking delays
 package swarm
 
@@ -24,6 +23,23 @@ import (
 var vC05addrs = []ma.Multiaddr{ma.StringCast("/ip4/1.1.1.1/tcp/1"), ma.StringCast("/ip4/1.1.1.2/tcp/1"), ma.StringCast("/ip4/1.1.1.3/tcp/1"), ma.StringCast("/ip4/1.1.1.4/tcp/1")}
 var vC05peers = []peer.ID{"peerA", "peerA", "peerB", "peerB"}
 
+// real multiaddrs (parsed once, by the real parser): [kind][job] with kind 0 = TCP, 1 = QUIC, 2 = circuit through a TCP relay
+var vC05real = vC05parseAll()
+
+func vC05parseAll() [][]ma.Multiaddr {
+	out := make([][]ma.Multiaddr, 3)
+	for i := 0; i < 4; i++ {
+		for k, text := range []string{"/ip4/1.1.1." + string(rune('1'+i)) + "/tcp/1", "/ip4/1.1.1." + string(rune('1'+i)) + "/udp/1/quic-v1", "/ip4/9.9.9.9/tcp/1/p2p/QmYyQSo1c1Ym7orWxLYvCrM2EmxFTANf8wXmmE7DWjhx5N/p2p-circuit"} {
+			a, err := ma.NewMultiaddr(text)
+			if err != nil {
+				panic(err)
+			}
+			out[k] = append(out[k], a)
+		}
+	}
+	return out
+}
+
 type vC05job struct {
 	dj       *dialJob
 	cancel   context.CancelFunc
@@ -39,19 +55,27 @@ func VerifC05aLimiterHistory() {
 	n := 3 + vTier()
 	perm := vCase(6 * 2) // split: completion order of the first three jobs x cancel flag of the first
 	jobs := make([]*vC05job, n)
-	VerifHook_dialLimiter_shouldConsumeFd = func(dl *dialLimiter, a ma.Multiaddr) bool {
-		for i, j := range jobs {
-			if j != nil && vC05addrs[i].Equal(a) {
-				return j.fd
-			}
+	addrs := make([]ma.Multiaddr, n)
+	fds := make([]bool, n)
+	for i := 0; i < n; i++ {
+		kinds := 2
+		if i == 0 {
+			kinds = 3
 		}
-		return false
+		switch vCase(kinds) {
+		case 0:
+			addrs[i], fds[i] = vC05real[0][i], true
+		case 1:
+			addrs[i] = vC05real[1][i]
+		default:
+			addrs[i] = vC05real[2][0]
+			vCover("circuit-through-a-tcp-relay")
+		}
 	}
-	defer func() { VerifHook_dialLimiter_shouldConsumeFd = nil }()
 	df := func(ctx context.Context, p peer.ID, a ma.Multiaddr, upd chan<- transport.DialUpdate) (transport.CapableConn, error) {
 		var me *vC05job
 		for i, j := range jobs {
-			if vC05addrs[i].Equal(a) {
+			if addrs[i].Equal(a) {
 				me = j
 			}
 		}
@@ -64,8 +88,8 @@ func VerifC05aLimiterHistory() {
 	dl := newDialLimiterWithParams(df, 1+vCase(2), 1+vCase(2))
 	for i := 0; i < n; i++ {
 		ctx, cancel := context.WithCancel(context.Background())
-		jobs[i] = &vC05job{cancel: cancel, release: make(chan struct{}), fd: vBool()}
-		jobs[i].dj = &dialJob{addr: vC05addrs[i], peer: vC05peers[i], ctx: ctx, resp: make(chan transport.DialUpdate, 4), timeout: time.Minute}
+		jobs[i] = &vC05job{cancel: cancel, release: make(chan struct{}), fd: fds[i]}
+		jobs[i].dj = &dialJob{addr: addrs[i], peer: vC05peers[i], ctx: ctx, resp: make(chan transport.DialUpdate, 4), timeout: time.Minute}
 	}
 	settle := func() {
 		for i := 0; i < 30; i++ {
